@@ -138,6 +138,8 @@ def explore_E(chunk):
                 variant("lead/trail", L.render(tokens, None, lead, trail)[0])
         for t2 in L.spelling_variants(tokens):
             variant("spelling", L.render(t2)[0])
+            # ... and with nothing between the tokens wherever that is legal
+            variant("spelling-tight", L.render(t2, L.tight(t2))[0])
         for t2 in L.paren_variants(tokens):
             variant("parentheses", L.render(t2)[0])
         for t2 in L.signed_paren_variants(tokens):
